@@ -1,37 +1,179 @@
-(* C11, Ackermannization part: what is PROVED about models/Ackermann.v is only the refutation of
-   the shape clause (by computation on the faithful model) and two closed examples; the
-   semantic clauses (ack_complete, ack_sound) and the shape clause for flat inputs are covered
-   by the correspondence and by the refeval search oracle of harness/c11.py, not by proof. *)
+(* C11, Ackermannization part, for the REPAIRED code (build/fixes/C11_ackermann_nested.diff):
+   [ack_shape] - the result of do_ackermannization contains no function application, for every
+   formula and every state reachable from a new Ackermannizer (invariant [Inv]).
+   The semantic clauses (ack_complete, ack_sound) are NOT proved: they are covered by the
+   correspondence with models/Ackermann.v and by the refeval search oracle of harness/c11.py. *)
 From Coq Require Import List ZArith Bool String.
-From PySMT.core Require Import Syntax.
-From PySMT.models Require Import Cnf Ackermann.
+From PySMT.core Require Import Syntax SyntaxLemmas.
+From PySMT.models Require Import Oracles Cnf Ackermann.
+From PySMT.proofs Require Import Sets_proofs.
 Import ListNotations.
 Open Scope bool_scope.
 
+Lemma has_app_node o args : has_app (T o args) = false <->
+  (forall n ty, o <> OFunction n ty) /\ forall a, In a args -> has_app a = false.
+Proof.
+  assert (G : existsb has_app args = false <-> forall a, In a args -> has_app a = false).
+  { split.
+    - intros E a Ha. destruct (has_app a) eqn:X; auto.
+      assert (Y : existsb has_app args = true) by (apply existsb_exists; eauto). congruence.
+    - intros H. destruct (existsb has_app args) eqn:E; auto. apply existsb_exists in E.
+      destruct E as (a & Ha & Hx). rewrite (H a Ha) in Hx. discriminate. }
+  destruct o; cbn [has_app];
+    try (rewrite G; split; [intros H; split; [intros; discriminate | exact H] | intros [_ H]; exact H]).
+  split; [discriminate|]. intros [H _]. exfalso. eapply H; reflexivity.
+Qed.
+
+Lemma assoc_t_In t l c : assoc_t t l = Some c -> In (t, c) l.
+Proof.
+  induction l as [|[g d] r IH]; cbn; [discriminate|]. destruct (term_eqb t g) eqn:E; auto.
+  apply term_eqb_eq in E. subst. intros [= ->]. auto.
+Qed.
+Lemma assoc_t_app_l t l D c : assoc_t t l = Some c -> assoc_t t (l ++ D) = Some c.
+Proof. induction l as [|[g d] r IH]; cbn; [discriminate|]. destruct (term_eqb t g); auto. Qed.
+Lemma assoc_t_app_r t l c : assoc_t t l = None -> assoc_t t (l ++ [(t, c)]) = Some c.
+Proof.
+  induction l as [|[g d] r IH]; cbn.
+  - assert (E : term_eqb t t = true) by now apply term_eqb_eq. now rewrite E.
+  - destruct (term_eqb t g); [discriminate|auto].
+Qed.
+
+Lemma tuple_eqb_eq a b : tuple_eqb a b = true <-> a = b.
+Proof. apply list_eqb_eq. apply Forall_forall. intros x _ y. apply term_eqb_eq. Qed.
+
+Lemma In_add_args fn args fs g opts o : In (g, opts) (add_args fn args fs) -> In o opts ->
+  (exists opts', In (g, opts') fs /\ In o opts') \/ (g = fn /\ o = args).
+Proof.
+  induction fs as [|[h ho] r IH]; cbn.
+  - intros [[= <- <-]|[]] [<-|[]]. auto.
+  - destruct (var_eqb fn h) eqn:E.
+    + apply var_eqb_eq in E. subst h. intros [[= <- <-]|Hin] Ho.
+      * apply (add_In tuple_eqb tuple_eqb_eq) in Ho. destruct Ho as [->|Ho]; [auto | left; eauto].
+      * left. eauto.
+    + intros [[= <- <-]|Hin] Ho; [left; eauto|].
+      destruct (IH Hin Ho) as [(opts' & A & B)|?]; [left; eauto | auto].
+Qed.
+
+(* what every state reachable from a new Ackermannizer satisfies *)
+Definition Inv (st : astate) : Prop :=
+  (forall g c, In (g, c) (terms st) -> has_app c = false) /\
+  (forall fn opts o, In (fn, opts) (funs st) -> In o opts ->
+                     exists c, assoc_t (T (OFunction (fst fn) (snd fn)) o) (terms st) = Some c).
+
+Lemma Inv_init guess names : Inv (init_astate guess names).
+Proof. split; cbn; intros; contradiction. Qed.
+
+Definition StepOk (t : term) : Prop :=
+  forall st, Inv st -> Inv (snd (ack_walk t st)) /\ has_app (fst (ack_walk t st)) = false.
+
+Lemma ack_list_ok l : Forall StepOk l ->
+  forall st, Inv st -> Inv (snd (ack_list ack_walk l st)) /\
+                       forall a, In a (fst (ack_list ack_walk l st)) -> has_app a = false.
+Proof.
+  induction 1 as [|x l Hx Hl IH]; intros st Hi; cbn [ack_list].
+  - split; auto. intros a [].
+  - destruct (IH st Hi) as [I1 A1]. destruct (ack_list ack_walk l st) as [rs st1]. cbn [fst snd] in *.
+    destruct (Hx st1 I1) as [I2 A2]. destruct (ack_walk x st1) as [x' st2]. cbn [fst snd] in *.
+    split; auto. intros a [<-|Ha]; auto.
+Qed.
+
+Theorem ack_walk_ok : forall t, StepOk t.
+Proof.
+  induction t as [o args IH] using term_ind'. intros st Hi.
+  assert (U : ack_walk (T o args) st =
+              let (nargs, st1) := ack_list ack_walk args st in
+              match o with
+              | OFunction n fty =>
+                  match assoc_t (T o args) (terms st1) with
+                  | Some c => (c, st1)
+                  | None =>
+                      let (nm, m') := new_fresh "ack" (amgr st1) in
+                      let c := TSym nm (ret_type fty) in
+                      (c, {| amgr := m'; terms := terms st1 ++ [(T o args, c)];
+                             funs := add_args (n, fty) args (funs st1) |})
+                  end
+              | _ => (T o nargs, st1)
+              end) by reflexivity.
+  rewrite U. clear U.
+  destruct (ack_list_ok args IH st Hi) as [I1 A1]. destruct (ack_list ack_walk args st) as [nargs st1].
+  cbn [fst snd] in *.
+  assert (GEN : (forall n ty, o <> OFunction n ty) -> Inv st1 /\ has_app (T o nargs) = false).
+  { intros Hne. split; auto. apply has_app_node. split; auto. }
+  destruct o; try (cbn [fst snd]; apply GEN; intros; discriminate).
+  clear GEN. destruct (assoc_t (T (OFunction n t) args) (terms st1)) as [c|] eqn:E.
+  - cbn [fst snd]. split; auto. destruct I1 as [T1 _]. eapply T1. eapply assoc_t_In; eauto.
+  - destruct (new_fresh "ack" (amgr st1)) as [nm m']. cbn [fst snd]. split; [|reflexivity].
+    destruct I1 as [T1 F1]. split; cbn [terms funs].
+    + intros g c Hin. apply in_app_or in Hin. destruct Hin as [Hin|[[= <- <-]|[]]]; [eauto | reflexivity].
+    + intros fn opts o Hin Ho. destruct (In_add_args _ _ _ _ _ _ Hin Ho) as [(opts' & A & B)|[-> ->]].
+      * destruct (F1 fn opts' o A B) as (c & Hc). exists c. now apply assoc_t_app_l.
+      * cbn [fst snd]. eexists. now apply assoc_t_app_r.
+Qed.
+
+Lemma has_app_mk_and l : (forall a, In a l -> has_app a = false) -> has_app (mk_and l) = false.
+Proof.
+  intros H. destruct l as [|x [|y r]]; cbn [mk_and]; [reflexivity | apply H; now left |].
+  apply has_app_node. split; [intros; discriminate | exact H].
+Qed.
+Lemma has_app_eq_or_iff a b : has_app a = false -> has_app b = false -> has_app (eq_or_iff a b) = false.
+Proof.
+  intros Ha Hb. unfold eq_or_iff.
+  destruct (TypeChecker.tc a) as [[]|]; apply has_app_node; (split; [intros; discriminate|]);
+    intros x [<-|[<-|[]]]; auto.
+Qed.
+
+Lemma implication_ok st fn o1 o2 : Inv st -> (forall opts, In (fn, opts) (funs st) -> True) ->
+  (exists c, assoc_t (T (OFunction (fst fn) (snd fn)) o1) (terms st) = Some c) ->
+  (exists c, assoc_t (T (OFunction (fst fn) (snd fn)) o2) (terms st) = Some c) ->
+  has_app (implication st fn o1 o2) = false.
+Proof.
+  intros Hi _ (c1 & H1) (c2 & H2). unfold implication. apply has_app_node. split; [intros; discriminate|].
+  intros x [<-|[<-|[]]].
+  - apply has_app_mk_and. intros a Ha. apply (proj1 (dedupe_In term_eqb term_eqb_eq _ _)) in Ha.
+    apply in_map_iff in Ha. destruct Ha as ([p q] & <- & _). cbn [fst snd]. unfold sub.
+    apply has_app_eq_or_iff; apply ack_walk_ok; auto.
+  - destruct Hi as [T1 _]. unfold repl. cbn [is_app]. rewrite H1, H2.
+    apply has_app_eq_or_iff; [eapply T1 | eapply T1]; eapply assoc_t_In; eauto.
+Qed.
+
+Lemma In_pairs {A} (l : list A) x y : In (x, y) (pairs l) -> In x l /\ In y l.
+Proof.
+  induction l as [|z r IH]; cbn; [intros []|]. intros H. apply in_app_or in H. destruct H as [H|H].
+  - apply in_map_iff in H. destruct H as (w & [= <- <-] & Hw). auto.
+  - destruct (IH H). auto.
+Qed.
+
+(* C11, shape: no uninterpreted-function application is left *)
+Theorem ack_shape_inv f st : Inv st -> has_app (fst (ackermannize f st)) = false.
+Proof.
+  intros Hi. unfold ackermannize. destruct (ack_walk_ok f st Hi) as [I1 A1].
+  destruct (ack_walk f st) as [sb st']. cbn [fst snd] in *.
+  assert (HI : forall a, In a (implications st') -> has_app a = false).
+  { intros a Ha. unfold implications in Ha. apply (proj1 (dedupe_In term_eqb term_eqb_eq _ _)) in Ha.
+    apply in_flat_map in Ha. destruct Ha as ([fn opts] & He & Hm). cbn [fst snd] in Hm.
+    apply in_map_iff in Hm. destruct Hm as ([o1 o2] & <- & Hp). cbn [fst snd].
+    destruct (In_pairs _ _ _ Hp) as [P1 P2]. destruct I1 as [T1 F1].
+    apply implication_ok; [split; auto | auto | eapply F1; eauto | eapply F1; eauto]. }
+  destruct (implications st') as [|i r] eqn:E; cbn [fst]; auto.
+  apply has_app_node. split; [intros; discriminate|]. intros x [<-|[<-|[]]]; auto.
+  apply has_app_mk_and. exact HI.
+Qed.
+Theorem ack_shape f guess names : has_app (fst (ackermannize f (init_astate guess names))) = false.
+Proof. apply ack_shape_inv, Inv_init. Qed.
+
+(* ---- regression: the witness that refuted the shape clause before the repair ---- *)
 Definition f_ii : ty := TFun [TInt] TInt.
 Definition fx : term := T (OFunction "f" f_ii) [TSym "x" TInt].
 (* f(f(x) + 1) = x *)
 Definition ack_wit : term :=
   T OEquals [T (OFunction "f" f_ii) [T OPlus [fx; TIntC 1]]; TSym "x" TInt].
 Definition ack_wit_st : astate := init_astate 0 ["x"; "f"]%string.
-
-(* the result ((x = f(x) + 1) -> ack0 = ack1) & (ack1 = x) still contains the application f(x) *)
-Theorem ack_shape_refuted :
-  exists f st, has_app (fst (ackermannize f st)) = true.
-Proof. exists ack_wit, ack_wit_st. vm_compute. reflexivity. Qed.
-
+(* ((x = ack0 + 1) -> ack0 = ack1) & (ack1 = x)     (was: (x = f(x) + 1) -> ...) *)
 Example ack_wit_result :
   fst (ackermannize ack_wit ack_wit_st) =
-  T OAnd [T OImplies [T OEquals [TSym "x" TInt; T OPlus [fx; TIntC 1]];
+  T OAnd [T OImplies [T OEquals [TSym "x" TInt; T OPlus [TSym "ack0" TInt; TIntC 1]];
                       T OEquals [TSym "ack0" TInt; TSym "ack1" TInt]];
           T OEquals [TSym "ack1" TInt; TSym "x" TInt]].
 Proof. vm_compute. reflexivity. Qed.
 Example ack_wit_not_flat : ack_flat ack_wit = false.
 Proof. reflexivity. Qed.
-
-(* a flat input with nested applications: f(f(x)) = x /\ f(x) = 3 *)
-Definition ack_flat_ex : term :=
-  T OAnd [T OEquals [T (OFunction "f" f_ii) [fx]; TSym "x" TInt]; T OEquals [fx; TIntC 3]].
-Example ack_flat_ex_ok :
-  ack_flat ack_flat_ex = true /\ has_app (fst (ackermannize ack_flat_ex ack_wit_st)) = false.
-Proof. split; vm_compute; reflexivity. Qed.
